@@ -21,10 +21,11 @@ def z_matrix():
 
 
 def h_matrix():
+    # float(): sympy cannot ingest numpy scalars of numpy >= 2
     return sympy.Matrix(
         [
-            [(1 / np.sqrt(2)), (1 / np.sqrt(2))],
-            [(1 / np.sqrt(2)), (-1 / np.sqrt(2))],
+            [float(1 / np.sqrt(2)), float(1 / np.sqrt(2))],
+            [float(1 / np.sqrt(2)), float(-1 / np.sqrt(2))],
         ]
     )
 
